@@ -376,9 +376,14 @@ bool splinetable<Alloc>::read_fits_core(fitsfile* fits, const std::string& fileP
 		fits_movnam_hdu(fits, IMAGE_HDU, const_cast<char*>(hduname.str().c_str()), 0, &error);
 		long nknots_temp = 0; //stays 0 if the extension has no axis at all
 		fits_get_img_size(fits, 1, &nknots_temp, &error);
+		//the knots are read below with a single first-pixel index
+		int knots_naxis = 0;
+		fits_get_img_dim(fits, &knots_naxis, &error);
 		
 		if (error != 0)
 			throw std::runtime_error("Error reading size of knot vector "+std::to_string(i));
+		if (knots_naxis != 1)
+			throw std::runtime_error("Knot vector "+std::to_string(i)+" is not stored as a one-dimensional array");
 		if(nknots_temp<=0)
 			throw std::runtime_error("Invalid number of knots ("+std::to_string(nknots_temp)+") in dimension "+std::to_string(i));
 		//the padding below is computed from the order, so the order has to be
@@ -410,7 +415,10 @@ bool splinetable<Alloc>::read_fits_core(fitsfile* fits, const std::string& fileP
 		int ext_error = 0;
 		fits_movnam_hdu(fits, IMAGE_HDU, const_cast<char*>("EXTENTS"), 0, &ext_error);
 		fits_get_img_size(fits, 1, &n_extents, &ext_error);
-		if (n_extents != 2*ndim)
+		//the extents are read below with a single first-pixel index
+		int ext_naxis = 0;
+		fits_get_img_dim(fits, &ext_naxis, &ext_error);
+		if (ext_naxis != 1 || n_extents != 2*ndim)
 			ext_error = 1;
 		
 		if (ext_error != 0) { // No extents. Make up some reasonable ones.
